@@ -3,6 +3,7 @@ From Coq Require Import List ZArith Bool Lia Permutation.
 From RecordUpdate Require Import RecordUpdate.
 From GB Require Import Model.Allowance Model.Batcher Proofs.Tactics Proofs.C01Inv Proofs.BatcherLocal
   Proofs.BatcherLocal2 Proofs.BatcherInv2 Proofs.BatcherInv3.
+From GB Require Import Gen.Facts.
 Import ListNotations.
 Open Scope Z_scope.
 (* a GiveMe call (and request event) comes only from the idle loop consuming a capacity tick, only with a limiter, with the current NeedsCapacity(): so never during a pause (loop asleep), never after shutdown (loop exited) *)
@@ -28,3 +29,7 @@ Theorem C12_default_interval : forall c, c_capint c <= 0 -> eff_capint c = 100 *
 Proof. intros c H. unfold eff_capint, dflt. apply Z.leb_le in H. now rewrite H. Qed.
 Print Assumptions C12_default_interval.
 
+
+Theorem C12_source_constants :
+  V1_default_capacityInterval = default_capint /\ V2_default_capacityInterval = default_capint.
+Proof. split; reflexivity. Qed.
